@@ -5,6 +5,7 @@ CONSTANTS
   SigForms = {"full", "nov", "vflip", "rflip", "empty", "short", "long"}
   MaxOps = 12
   MaxChurn = 1
+  DialerSelfCheck = TRUE
   RecordHist = FALSE
-INVARIANT AcceptorFresh SecretsDistinct ReplayedNeverIdentified BoundToSession NoImpersonationAtAcceptor DialerSeesSessionEnd AttackerNeverOther
+INVARIANT AcceptorFresh SecretsDistinct ReplayedNeverIdentified BoundToSession NoImpersonationAtAcceptor NoIdentityWithoutKey DialerSeesSessionEnd AttackerNeverOther
 PROPERTIES IdentityFinal ClosedStaysClosed
